@@ -86,9 +86,6 @@ def install(world):
         return ObjV("__kwdict__", dict(kwargs))
     world.builtins["dict"] = b_dict
 
-    def kd_set(ex, st, d, idx, v, node):
-        return ObjV("__kwdict__", {**d.fields, idx.v: v})
-    world.handlers[("__kwdict__", "__setitem__")] = kd_set
 
 
 @contract("files.py", "OutputFiles.open_record_writer", props=["C19", "C06"])
